@@ -52,6 +52,7 @@ Env ==
   \/ s.st.pc = "tcp" /\ s.st.wake = "none" /\ s.cs # "closed" /\ Use(TRUE) /\ s' = EnvTcp(s, "SocketAPIError") /\ H(<<"tcp", "err">>)
   \/ s.st.pc = "tcp" /\ s.st.wake = "none" /\ s.cs # "closed" /\ Use(TRUE) /\ s' = EnvTcp(s, "okbad") /\ H(<<"tcp", "okbad">>)
   \/ s.fi.out = "idle" /\ s.st.out = "ok" /\ Use(FALSE) /\ s' = UserFinish(s, s.cfg.login) /\ H(<<"finish", s.cfg.login>>)
+  \/ s.fi.out \notin {"idle", "pending"} /\ s.st.out = "ok" /\ Use(TRUE) /\ s' = UserFinish(s, s.cfg.login) /\ H(<<"finish", s.cfg.login>>)   \* second finish on the object
   \/ s.cfg.noise /\ s.fh = "made" /\ ~s.cm /\ s.tr = "open" /\ Use(FALSE) /\ s' = EnvHandshake(s, "ok") /\ H(<<"handshake", "ok">>)
   \/ s.cfg.noise /\ s.fh = "made" /\ ~s.cm /\ s.tr = "open" /\ Use(TRUE)
        /\ \E cls \in {"BadNameAPIError", "InvalidEncryptionKeyAPIError", "HandshakeAPIError"} : s' = EnvHandshake(s, cls) /\ H(<<"handshake", cls>>)
